@@ -305,8 +305,33 @@ def decode_assignment(ctx, rule='A5'):
            short(casts[0], 100) if casts else 'missing')
 
 
+def every_node_listed(ctx, rule='A5'):
+    """"Design-variable nodes receive values exactly when they exist": the decode assigns values to the nodes of
+    GraphProcessor.design_variable_nodes, so that list is every DesignVariableNode of the graph - re-ordered at most,
+    never filtered (a node that is left out exists in the decoded architecture without a value)."""
+    fn = ctx.fn(f'{GP}.design_variable_nodes')
+    rets = [r for r in returns_of(fn) if r.value is not None]
+    if not rets:
+        raise AnalysisError('GraphProcessor.design_variable_nodes: no return')
+    ok, detail = True, ''
+    for r in rets:
+        v = expand_locals(fn, r.value, 3)
+        src = any(isinstance(x, ast.Attribute) and x.attr == 'des_var_nodes' for x in ast.walk(v))
+        dropped = [x for x in ast.walk(v) if
+                   (isinstance(x, (ast.ListComp, ast.GeneratorExp, ast.SetComp)) and any(g.ifs for g in x.generators)) or
+                   (isinstance(x, ast.Call) and call_name(x) == 'filter') or
+                   (isinstance(x, ast.Subscript) and isinstance(x.slice, ast.Slice))]
+        if not src or dropped:
+            ok = False
+            detail = short(r.value, 110) + ('' if src else ' (not taken from the graph\'s des_var_nodes)')
+    ctx.ob(rule, fkey(fn, rule, 'every-design-variable-node-listed'), ok, fn.where,
+           'the nodes that receive values are all design-variable nodes of the graph (ordered, not filtered)',
+           detail or short(rets[0].value, 110))
+
+
 def check(ctx):
     clamp_regions(ctx)
+    every_node_listed(ctx)
     set_value_sanitised(ctx)
     decode_assignment(ctx)
     # which value goes to which design-variable node: the fixed values are merged back into the vector at their own
